@@ -22,9 +22,9 @@ func init() {
 			jobs = append(jobs, Job{Prop: "C20", Pkg: "repl", Func: "VerifCompletion", Args: []string{"2", "2", "2"}})
 			return jobs
 		},
-		Budget: map[string]time.Duration{"quick": 4 * time.Minute, "thorough": 40 * time.Minute},
-		Reach:  []string{"non-empty prefix result", "several completions"},
-		Bounds: map[string]interface{}{"words": "<=3 inserted words (4 thorough), each of length 0..2 (3 thorough), every insertion order", "alphabets": "{a,b} and {a,0x00,0xff} (bytes symbolic under an alphabet assumption)", "query": "length 0..3"},
+		Budget:  map[string]time.Duration{"quick": 4 * time.Minute, "thorough": 40 * time.Minute},
+		Reach:   []string{"non-empty prefix result", "several completions"},
+		Bounds:  map[string]interface{}{"words": "<=3 inserted words (4 thorough), each of length 0..2 (3 thorough), every insertion order", "alphabets": "{a,b} and {a,0x00,0xff} (bytes symbolic under an alphabet assumption)", "query": "length 0..3"},
 		Outside: []string{"words longer than 3 bytes, more than 4 words, bytes outside the two alphabets (each symbolic byte forks once per alphabet member in children[char])"},
 	})
 }
